@@ -30,6 +30,7 @@ func checkC19(run *Run, res *Result) {
 	pingsAfterStopCall := 0
 	openStops := map[string]int64{}
 	fiveInARound := false
+	fiveAmbiguous := false
 	pattern := ""
 	for i := range run.Evs {
 		e := &run.Evs[i]
@@ -94,7 +95,15 @@ func checkC19(run *Run, res *Result) {
 					consecutive++
 					pattern += "F"
 					if consecutive >= 5 {
-						fiveInARound = true
+						if stopCallT >= 0 && lastPingBeginT >= stopCallT {
+							// Stop() was called at the very instant the retry timer fired: the runtime's select decides
+							// whether this ping was the round's fifth attempt (fail-stop) or the first ping of a stray
+							// round started by a pending tick after the cancellation (harmless). Both are legitimate.
+							fiveAmbiguous = true
+							res.probe("fifth-failure-after-stop-was-called")
+						} else {
+							fiveInARound = true
+						}
 					}
 				} else {
 					consecutive = 0
@@ -125,7 +134,7 @@ func checkC19(run *Run, res *Result) {
 	switch {
 	case fiveInARound && !died && run.Ended:
 		res.violate("C19", "R1-survived-five-failures", len(run.Evs), "plain", "five consecutive pings of one round failed (%s) and the process kept running", pattern)
-	case died && !fiveInARound:
+	case died && !fiveInARound && !fiveAmbiguous:
 		res.violate("C19", "R1-terminated-without-five-consecutive-failures", len(run.Evs), "plain",
 			"the process terminated (%s) although no round had five consecutive failing pings (outcomes so far: %s)", res.FailStop, pattern)
 	case died && !healthPanic:
